@@ -9,11 +9,11 @@ run_demo() {  # $1 = label
   if [ -f $V/demo.py ]; then timeout 900 python3 $V/demo.py $WT/target/release/rustybait >>$LOG 2>&1; return $?; fi
   if [ -f $V/demo.sh ]; then timeout 900 bash $V/demo.sh $WT/target/release/rustybait >>$LOG 2>&1; return $?; fi
   if [ -f $V/run_demo.sh ]; then
-    if [ -f $V/demo.diff ]; then git apply $V/demo.diff >>$LOG 2>&1 || { echo "demo.diff does not apply" >>$LOG; return 99; }; fi
+    if [ -f $V/demo.diff ]; then git apply $V/demo.diff >>$LOG 2>&1 || { echo "demo.diff does not apply" >>$LOG; return 251; }; fi
     timeout 1800 bash $V/run_demo.sh >>$LOG 2>&1; rc=$?
     return $rc
   fi
-  echo "no demo found" >>$LOG; return 98
+  echo "no demo found" >>$LOG; return 250
 }
 # --- with the change
 if ! git apply $V/patch.diff >>$LOG 2>&1; then echo "$V: PATCH-DOES-NOT-APPLY"; exit 1; fi
@@ -33,6 +33,6 @@ echo "== demo without change" >>$LOG
 run_demo without; D_WITHOUT=$?
 git checkout -q -- .; git clean -fdq src
 VERDICT=REJECT
-if [ "$FAILED" = "0" ] && [ "$PASSED" -ge 42 ] && [ "$D_WITH" != "0" ] && [ "$D_WITH" -lt 98 ] && [ "$D_WITHOUT" = "0" ]; then VERDICT=CONFIRMED; fi
-echo "$V: $VERDICT tests_passed=$PASSED other_failures=$FAILED demo_with=$D_WITH demo_without=$D_WITHOUT" > $V/confirm.summary
-echo "$V: $VERDICT tests_passed=$PASSED other_failures=$FAILED demo_with=$D_WITH demo_without=$D_WITHOUT"
+if [ "$FAILED" = "0" ] && [ "$PASSED" -ge 42 ] && [ "$D_WITH" != "0" ] && [ "$D_WITH" -lt 250 ] && [ "$D_WITHOUT" = "0" ]; then VERDICT=CONFIRMED; fi
+echo "$WT/$V: $VERDICT tests_passed=$PASSED other_failures=$FAILED demo_with=$D_WITH demo_without=$D_WITHOUT" > $V/confirm.summary
+echo "$WT/$V: $VERDICT tests_passed=$PASSED other_failures=$FAILED demo_with=$D_WITH demo_without=$D_WITHOUT"
